@@ -187,6 +187,7 @@ where
                     let s = strat();
                     let r = runner.run(&s, |case| {
                         if failed.get() {
+                            tick();
                             // shrinking: do not count, but remember the failure of the candidate
                             let mut scratch = Acc::default();
                             return match test(&case, &mut scratch) {
@@ -201,6 +202,7 @@ where
                         if stop.load(Ordering::Relaxed) {
                             return Ok(());
                         }
+                        tick();
                         let mut a = acc.borrow_mut();
                         a.evaluations += 1;
                         match test(&case, &mut a) {
@@ -392,11 +394,41 @@ pub fn finish(engine: &str, out: &Outcome, ev: &EvidenceIn) -> i32 {
     }
 }
 
+/// Progress counter for the watchdog: bumped once per executed case / enumeration chunk.
+pub static PROGRESS: std::sync::atomic::AtomicU64 = std::sync::atomic::AtomicU64::new(0);
+
+pub fn tick() {
+    PROGRESS.fetch_add(1, Ordering::Relaxed);
+}
+
+/// A run that makes no progress for `stall_s` seconds is reported as inconclusive (exit 2):
+/// a hang is never turned into a violation by the clock.
+pub fn start_watchdog(stall_s: u64) {
+    std::thread::spawn(move || {
+        let mut last = PROGRESS.load(Ordering::Relaxed);
+        let mut since = Instant::now();
+        loop {
+            std::thread::sleep(std::time::Duration::from_secs(2));
+            let now = PROGRESS.load(Ordering::Relaxed);
+            if now != last {
+                last = now;
+                since = Instant::now();
+            } else if since.elapsed().as_secs() > stall_s {
+                println!("INCONCLUSIVE: no case finished for {} s - a call into the code under test (or the harness) does not return; watchdog exit", stall_s);
+                std::process::exit(2);
+            }
+        }
+    });
+}
+
 thread_local! {
     pub static LAST_PANIC_LOC: std::cell::RefCell<String> = std::cell::RefCell::new(String::new());
 }
 
 pub fn install_quiet_panic_hook() {
+    if std::env::var("VERIF_LOUD").is_ok() {
+        return;
+    }
     std::panic::set_hook(Box::new(|info| {
         let loc = info.location().map(|l| format!("{}:{}", l.file(), l.line())).unwrap_or_default();
         LAST_PANIC_LOC.with(|l| *l.borrow_mut() = loc);
